@@ -5,7 +5,7 @@ import Driver.LR
 import Driver.TripWire
 open Driver
 
-def comps : List Comp := [LatchD.comp, LockFamD.comp, BarrierD.comp, LRD.comp, TripWireD.comp]
+def comps : List Comp := [LatchD.comp, LockFamD.comp, BarrierD.comp, LRD.comp, LRD.compStrict, TripWireD.comp]
 
 def main (args : List String) : IO UInt32 := do
   match args with
